@@ -127,6 +127,9 @@ def delegation(ctx, idx, d, r, base_name, rule="C08.a"):
             # allow a temporary: x = super().execute(...); return insure_fuzzy(x, ...)
             ok = isinstance(rv, ast.Call) and idx.qualname(fi.module, rv.func, fi) == "mpilot.utils.insure_fuzzy" and isinstance(v, Arr) and v.rng == (("c", -1), ("c", 1))
         if not ok:
+            # any other way of establishing the range on the value of that call (a clamp skipped when the extremes are tested to be inside)
+            ok = isinstance(v, Arr) and v.rng == (("c", -1), ("c", 1)) and bool(v.D)
+        if not ok:
             problems.append("the returned value is not insure_fuzzy(super().execute(...), -1, 1)")
     if problems:
         ctx.violate(rule, con, d.module.rel, node.lineno, "; ".join(problems[:4]))
